@@ -394,5 +394,6 @@ pub fn property() -> Property {
             },
         ],
         assumptions: &["the reference sequence is the calculator's own plain-next() drain (C02 ties that sequence to one-shot results)"],
+        enumerate: None,
     }
 }
